@@ -12,7 +12,15 @@ if [ -f $D/demo.py ]; then
   echo "demo: with-change exit=$a  without exit=$b"
 fi
 /verif/tools/baseline.sh $W > $W.base; /verif/tools/baseline.sh /repo > $W.base0
-if diff -q $W.base0 $W.base >/dev/null; then echo "suite: same"; else echo "suite: DIFFERS"; diff $W.base0 $W.base | head -5; fi
+if ! diff -q $W.base0 $W.base >/dev/null; then
+  # timing-sensitive tests (test_curio under load): re-run only the tests that differ, on both trees
+  ids=$(diff $W.base0 $W.base | grep -E '^[<>]' | awk '{print $3}' | sort -u)
+  for t in $W /repo; do
+    (cd $t && PYTHONPATH=$t timeout 600 /venv/bin/python -m pytest -q -p no:cacheprovider --timeout=60 -rA $ids 2>&1 | grep -E '^(PASSED|FAILED|ERROR) tests/' | sort) > $W.re.$(basename $t)
+  done
+  if diff -q $W.re.$(basename $W) $W.re.repo >/dev/null; then echo "suite: same (after re-running $(echo $ids | wc -w) timing-sensitive tests)"; else echo "suite: DIFFERS"; diff $W.re.repo $W.re.$(basename $W) | head -5; fi
+  rm -f $W.re.*
+else echo "suite: same"; fi
 for p in "$@"; do
   out=$(cd /verif && AIORPCX_REPO=$W VERIF_SEED=${VERIF_SEED:-0} timeout 900 ./check $p 2>&1 | grep -E "VIOLATION|KNOWN|exit|MACHINERY" | grep -v "^KNOWN" | tr '\n' ' ')
   echo "$p: $out"
